@@ -139,7 +139,8 @@ def run(rep, tier):
                        "robust::orient2d on the unmodified points to the orientation, (R3.3) in the predicate family no branch, comparison "
                        "or returned predicate value depends on the result of rounded arithmetic (interprocedural taint over MIR; helper "
                        "results count as clean only if the helper is clean), (R3.4) every orient2d argument in the family is a bit-copy of "
-                       "an input coordinate.")
+                       "an input coordinate, (R3.6) the sign-level decision tables of point-on-segment, segment-segment intersects, "
+                       "point-in-triangle, the ring crossing step and the polygon composition agree with exact integer geometry on witness catalogues.")
     rep.trusted = ["the `robust` crate's orient2d is a correct adaptive predicate", "rustc MIR", "flow-insensitive local taint (over-approximates)"]
     rep.assumptions = ["integer scalar types: intermediate products fit the type (hypothesis of the property)",
                        "comparisons and equalities of f64 inputs are exact (IEEE)"]
@@ -149,6 +150,17 @@ def run(rep, tier):
     taint_family(rep, F)
     orient_args(rep, F)
     kernel_dispatch(rep, F)
+    tables(rep, F, tier)
+
+
+def tables(rep, F, tier):
+    """R3.6: the predicates the property names give the exact-arithmetic answer: since R3.2-R3.5 make every decision a function of
+    orientation signs and coordinate comparisons, the answer is right for all inputs iff the finite decision table over those signs is
+    right; the table is compared with exact integer reference geometry on witness catalogues (shared with C02 R2.6 and C11 R11.4)."""
+    from . import c02_kernels, c11
+    c02_kernels.run(rep, F, tier, only={"Triangle∩Coord", "Triangle⊇Coord", "Triangle.position", "Line∩Coord", "Line⊇Coord", "Line.position",
+                                        "ring-step", "polygon-composition"}, rule="R3.6")
+    c11.agreement(rep, F, rule="R3.6")
 
 
 def kernel_binding(rep, F):
